@@ -42,7 +42,8 @@ pub fn lit_programs(tier: &str) -> (Vec<Program>, String) {
         v.extend(fam::lit_spawn_stagger(false));
         v.extend(fam::lit_coh3(false));
         v.extend(fam::lit_fence_multi(false));
-        level = "LIT: fence after two loads of flags published by two writers; coherence through a third thread (A: x-op, publish; B: subscribe, 1-2 x-ops; C: 1-2 x-ops); staggered spawns (main accesses/fences between two spawns); 2 threads, <=3 events on 1 location, <=4 events on 2 locations; 3 threads x 1 event on 1-2 locations (reduced orderings) + sentinels".to_string();
+        v.extend(fam::lit_mp_pub(false));
+        level = "LIT: message passing with every publishing / subscribing operation and fence; fence after two loads of flags published by two writers; coherence through a third thread (A: x-op, publish; B: subscribe, 1-2 x-ops; C: 1-2 x-ops); staggered spawns (main accesses/fences between two spawns); 2 threads, <=3 events on 1 location, <=4 events on 2 locations; 3 threads x 1 event on 1-2 locations (reduced orderings) + sentinels".to_string();
     } else {
         v.extend(fam::lit(1, 2, 3, 4, true, true));
         v.extend(fam::lit(2, 2, 2, 4, true, true));
@@ -52,7 +53,8 @@ pub fn lit_programs(tier: &str) -> (Vec<Program>, String) {
         v.extend(fam::lit_spawn_stagger(true));
         v.extend(fam::lit_coh3(true));
         v.extend(fam::lit_fence_multi(true));
-        level = "LIT: fence after two loads of flags published by two writers (all fence kinds); coherence through a third thread (5 publication idioms, two hops); staggered spawns; 2 threads <=4 events (all orderings, CAS), <=5 events on one location (reduced orderings), 3 threads <=4 events (reduced orderings) + sentinels".to_string();
+        v.extend(fam::lit_mp_pub(true));
+        level = "LIT: message passing with every publishing / subscribing operation and fence; fence after two loads of flags published by two writers (all fence kinds); coherence through a third thread (5 publication idioms, two hops); staggered spawns; 2 threads <=4 events (all orderings, CAS), <=5 events on one location (reduced orderings), 3 threads <=4 events (reduced orderings) + sentinels".to_string();
     }
     v.extend(fam::lit_sentinels());
     (v, level)
@@ -695,7 +697,8 @@ pub fn wait_programs(tier: &str) -> (Vec<Program>, String) {
     v.extend(fam::held_lock_deadlocks());
     v.extend(fam::wait_rounds());
     v.extend(fam::wait_loop_family(tier != "quick"));
-    let level = level + "; WAIT-rounds: one Notify / park token / condvar reused for 2-3 acknowledged rounds; WAIT-loop: `while !flag { wait }` with relaxed flags, 1-2 flags, 1-2 notifier threads, store/notify in either order, condvar with two waiters";
+    v.extend(fam::dl_enabler_family());
+    let level = level + "; WAIT-rounds: one Notify / park token / condvar reused for 2-3 acknowledged rounds; WAIT-loop: `while !flag { wait }` with relaxed flags, 1-2 flags, 1-2 notifier threads, store/notify in either order, condvar with two waiters; DL-enabler: a deadlock reached only if a third thread's independent send / notify / unpark is scheduled early";
     (v, level)
 }
 
